@@ -316,7 +316,7 @@ class C14(EngineBase):
         if step.get("crash_all") and "crash_n" not in step and total:
             # enumerate every crash line of this call; the first line at which
             # an operand is found modified is recorded as the concrete point
-            for n in range(1, min(total, 4000) + 1):
+            for n in range(1, min(total, 1500) + 1):
                 core.CACHE._fuseinfos.clear()
                 core.CACHE._fuseinfos.update(saved)
                 core.clear_lru()
